@@ -52,6 +52,18 @@ FilterAt(i) ==
    until   |-> TiO[((i \div 3840) % 4) + 1],
    limit   |-> [p |-> FALSE, v |-> 0]]
 
+\* A second, smaller table for the "for every #x entry" clause: three tag names, every tag
+\* sequence of length 3 over {t:x, p:a, r:z, t:y}, every subset of {#t:{x}, #p:{a}, #r:{z}}.
+Atoms3 == << Tg("t", "x"), Tg("p", "a"), Tg("r", "z"), Tg("t", "y") >>
+NE3 == 64
+Ev3At(j) == LET k == j - 1 IN
+  [id |-> "i1", author |-> "a", kind |-> 1, ts |-> 1,
+   tags |-> << Atoms3[(k % 4) + 1], Atoms3[((k \div 4) % 4) + 1], Atoms3[((k \div 16) % 4) + 1] >>]
+F3At(b) == [ids |-> Abs, authors |-> Abs, kinds |-> Abs,
+            tags |-> [n \in ((IF b % 2 = 1 THEN {"t"} ELSE {}) \cup (IF (b \div 2) % 2 = 1 THEN {"p"} ELSE {}) \cup (IF (b \div 4) % 2 = 1 THEN {"r"} ELSE {}))
+                        |-> IF n = "t" THEN {"x"} ELSE IF n = "p" THEN {"a"} ELSE {"z"}],
+            since |-> [p |-> FALSE, v |-> 0], until |-> [p |-> FALSE, v |-> 0], limit |-> [p |-> FALSE, v |-> 0]]
+
 VARIABLE i
 
 Init == /\ i \in {k \in 0..(NF - 1) : k % Stride = Offset} \cup {-2}
@@ -61,6 +73,8 @@ Next == \/ /\ i >= 0
            /\ i' = -1
         \/ /\ i = -2
            /\ PrintT(ToJson([events |-> [j \in 1..NE |-> EvAt(j)]]))
+           /\ PrintT(ToJson([events3 |-> [j \in 1..NE3 |-> Ev3At(j)]]))
+           /\ \A b \in 0..7 : PrintT(ToJson([i3 |-> b, f |-> F3At(b), m |-> {j \in 1..NE3 : Matches(Ev3At(j), F3At(b))}]))
            /\ i' = -1
 Spec == Init /\ [][Next]_i
 
